@@ -622,6 +622,9 @@ class CallMixin:
         return z3.Or(*terms)
 
     def bi_sum(self, args, kwargs, st, k):
+        from .flow import DictValues
+        if isinstance(args[0], DictValues):
+            return k(self.dict_sum_values(st, args[0].d), st)
         raise Unsupported("sum()")
 
     def bi_tuple(self, args, kwargs, st, k):
